@@ -170,7 +170,10 @@ package server
 //@     invariant same: sameslice(ParentAgent.Pivots.Links, old(ParentAgent.Pivots.Links)) && ParentAgent.Pivots.Links == old(ParentAgent.Pivots.Links)
 
 // Removing an agent: completes for any number of links and leaves it without links.
+// the agent is detached as parent of each of its children and as child of each parent that lists it
 //@ func (t *Teamserver) UnlinkFromAll(Agent *agent.Agent)
+//@   guard-call down: "LinkRemove#1" arg(1) == Agent && len(Agent.Pivots.Links) > 0 && arg(2) == Agent.Pivots.Links[0]
+//@   guard-call up:   "LinkRemove#2" arg(1) == ParentAgent && arg(2) == Agent
 //@   requires nonnil: t != nil && t.DB != nil && t.DB.db != nil && Agent != nil && Agent.Info != nil && noNilLinks(Agent) && forall(i, 0, len(t.Agents.Agents), t.Agents.Agents[i] != nil && noNilLinks(t.Agents.Agents[i]))
 //@   modifies *
 //@   loop "for len(Agent.Pivots.Links) > 0"
